@@ -218,7 +218,25 @@ pub fn c13<T: Px>(thorough: bool) -> Vec<CellDef> {
     let mut v = vec![];
     let (n, es) = (T::N, T::ES);
     for op in 0..4u8 {
-        for (sfx, sp) in pairs_sp::<T>(thorough) {
+        let mut sps = pairs_sp::<T>(thorough);
+        if n >= 12 && (thorough || n % 4 == 0 || n >= 29) {
+            // the second operand solved so that the exact result sits on / next to a rounding boundary (deep.rs)
+            let al = std::sync::Arc::new(crate::deep::operand_list(n, es, if thorough { 100 } else { 10 }));
+            sps.push(("#solve".into(), crate::deep::bin_solve_space(n, es, op, al, 3, "fraction shapes + unstructured fractions at a menu of scales")));
+            if op == 2 {
+                let mut l: Vec<u128> = vec![];
+                let m = if n == 32 { u32::MAX } else { (1u32 << n) - 1 };
+                for (a, b) in crate::deep::near_tie_pairs(n, es, if thorough { 400 } else { 150 }, 5, if thorough { 40 } else { 6 }) {
+                    l.push((a as u128) << 32 | b as u128);
+                    l.push((b as u128) << 32 | a as u128);
+                    l.push(((a.wrapping_neg() & m) as u128) << 32 | b as u128);
+                }
+                l.sort();
+                l.dedup();
+                sps.push(("#neartie".into(), Space::list(l, "operand pairs whose exact product starts, below the guard bit, with a run of >= 5 zeros or ones (complete scan of shape + unstructured operand lists, stratified by product scale x run length)")));
+            }
+        }
+        for (sfx, sp) in sps {
             v.push(CellDef::new("C13", format!("{}/{}{}", T::name(), OPS[op as usize], sfx), sp, move |k| {
                 let (a, b) = k2(k);
                 let (want, nt) = refs::bin(n, es, op, a, b);
